@@ -205,6 +205,7 @@ def run(ctx, P):
     r2.purges_keep_other_commands(ctx, P, "C09g")
     r2.interface_rules(ctx, P, "C09h", want=("registry",))
     r2.status_never_forgotten(ctx, P, "C09i")
+    r2.resend_goes_out_on_the_family_it_was_built_for(ctx, P, "C09j")
     clause_a(ctx, P)
     clause_b(ctx, P)
     clause_c(ctx, P)
